@@ -1550,16 +1550,16 @@ func (en *enumerator) scopeLevel(f *idl.File, di int, s *idl.Scope, declPos stri
 		toks = strings.Split(old, ".")
 	}
 	isVar := func(t string) bool { return strings.HasPrefix(t, "{") && strings.HasSuffix(t, "}") }
-	setPrefix := func(variant string, build func() []string) {
+	setPrefix := func(variant string, build func() []string) *edit {
 		nt := build()
 		if nt == nil {
-			return
+			return nil
 		}
 		np := strings.Join(nt, ".")
 		if np == old {
-			return
+			return nil
 		}
-		en.add("change-prefix", fb, fmt.Sprintf("scope %s prefix %q -> %q", sn, old, np), "prefix/"+variant, pkey, func(c *ectx) bool {
+		return en.add("change-prefix", fb, fmt.Sprintf("scope %s prefix %q -> %q", sn, old, np), "prefix/"+variant, pkey, func(c *ectx) bool {
 			x := getS(c.p)
 			if x == nil || x.Prefix != old {
 				return false
@@ -1635,6 +1635,31 @@ func (en *enumerator) scopeLevel(f *idl.File, di int, s *idl.Scope, declPos stri
 			})
 		}
 	}
+	// a literal segment that is spelled like a variable of the same prefix
+	// ("user.{user}.events"): the literal and the variable renamed together to
+	// one new name - the literal changed, so this is breaking
+	for j, tv := range toks {
+		if !isVar(tv) {
+			continue
+		}
+		for i, tl := range toks {
+			if !isVar(tl) && tl == strings.Trim(tv, "{}") {
+				i, j := i, j
+				if e := setPrefix("literal-and-same-named-variable-renamed", func() []string { n := cp(); n[i] = "zqrenamed"; n[j] = "{zqrenamed}"; return n }); e != nil {
+					e.Quals = []string{"literal-shares-variable-name"}
+				}
+				break
+			}
+		}
+	}
+	wordLike := func(t string) bool {
+		for _, r := range t {
+			if !(r == '_' || r >= '0' && r <= '9' || r >= 'a' && r <= 'z' || r >= 'A' && r <= 'Z') {
+				return false
+			}
+		}
+		return t != ""
+	}
 	vi := 0
 	for i, t := range toks {
 		if !isVar(t) {
@@ -1643,6 +1668,14 @@ func (en *enumerator) scopeLevel(f *idl.File, di int, s *idl.Scope, declPos stri
 		i := i
 		which := fmt.Sprintf("var%d-of-%d", vi, len(s.PrefixVars()))
 		vi++
+		var quals []string
+		for _, l := range toks {
+			if !isVar(l) && strings.Contains(l, strings.Trim(t, "{}")) {
+				quals = []string{"variable-name-occurs-in-literal"}
+				which += "/name-occurs-in-literal"
+				break
+			}
+		}
 		en.add("rename-prefix-variable", fb, fmt.Sprintf("scope %s prefix %q variable %s", sn, old, t), "prefix/"+which+"/"+posClass(i, len(toks)), pkey, func(c *ectx) bool {
 			x := getS(c.p)
 			if x == nil || x.Prefix != old {
@@ -1652,7 +1685,31 @@ func (en *enumerator) scopeLevel(f *idl.File, di int, s *idl.Scope, declPos stri
 			n[i] = "{" + c.name("zqVar") + "}"
 			x.Prefix = strings.Join(n, ".")
 			return true
-		})
+		}).Quals = quals
+		// ... and renamed to the spelling of a literal segment of the prefix
+		for _, l := range toks {
+			l := l
+			taken := false
+			for _, o := range toks {
+				if o == "{"+l+"}" {
+					taken = true
+				}
+			}
+			if isVar(l) || !wordLike(l) || taken {
+				continue
+			}
+			en.add("rename-prefix-variable", fb, fmt.Sprintf("scope %s prefix %q variable %s -> {%s}", sn, old, t, l), "prefix/"+which+"/to-literal-name", pkey, func(c *ectx) bool {
+				x := getS(c.p)
+				if x == nil || x.Prefix != old {
+					return false
+				}
+				n := cp()
+				n[i] = "{" + l + "}"
+				x.Prefix = strings.Join(n, ".")
+				return true
+			}).Quals = []string{"variable-name-occurs-in-literal"}
+			break
+		}
 	}
 	if vi > 1 {
 		en.add("rename-prefix-variable", fb, fmt.Sprintf("scope %s prefix %q all variables", sn, old), "prefix/all-variables", pkey, func(c *ectx) bool {
